@@ -80,11 +80,18 @@ def run_closed(ctx, case):
         if c['fam'] == 'mixture' and c['vec'] == 'basis' and c['prng'] % 2 == 0 and np.allclose(rho, np.round(rho.real)):
             rho = np.round(rho.real).astype([np.int64, np.int32, np.uint8][c['prng'] % 3])  # a basis product state written down with integers
             ctx.label('integer dtype basis state')
+        if np.iscomplexobj(rho) and c['prng'] % 3 == 1 and float(np.abs(rho.imag).max()) == 0.0:
+            rho = np.ascontiguousarray(rho.real)  # a real state held in a real dtype (real local vectors, Werner, diagonal states ...)
+        if not np.iscomplexobj(rho):
+            ctx.label('real dtype state')
         ctx.label('boundary state' if rank < D else 'full rank')
         layout = ref.LAYOUTS[(c['prng'] // 7) % len(ref.LAYOUTS)]
         rho = ref.with_layout(rho, layout)  # same values; the verdict must not depend on strides or writability
         ctx.label('layout=' + layout)
         tag = f'{c["fam"]} dims={dims} layout={layout}'
+        if c['prng'] % 4 == 2:
+            dimt = np.array(dims[::-1])[::-1]  # the dimensions as an integer array that is a negative-stride view (logical content = dims)
+            ctx.label('dims as reversed-view array')
         rho_before = rho.copy()
         ctx.require(E.is_ppt(rho, dimt) is True or E.is_ppt(rho, dimt) == True, 'is_ppt accepts a separable state', tag)  # noqa: E712
         ctx.require(bool(E.is_generalized_ppt(rho, dimt)), 'is_generalized_ppt accepts a separable state', tag)
